@@ -187,6 +187,8 @@ def m_apply(m, op):
                 hole["data"].pop(an)
             del hole["groups"][g]
             m["stale_groups"] = sorted(set(m["stale_groups"]) | {g})
+    elif k == "rm_protected":
+        pass  # never legitimate: whatever the library did, the model keeps the data
     elif k == "rm_group":
         _, h, g, _via = op
         hole = H[h]
@@ -280,6 +282,10 @@ def enabled(m, alpha, n_ops_done=0):
             for g in H[h]["groups"]:
                 for v in via:
                     ops.append(["rm_group", h, g, v])
+    if "rm_protected" in kinds:
+        for h in live:
+            for g in H[h]["groups"]:
+                ops.append(["rm_protected", h, g])
     if "rm_hole" in kinds:
         for h in live:
             for v in via:
@@ -302,6 +308,10 @@ def deviations(ops):
 # ---------------------------------------------------------------------------
 # executor
 # ---------------------------------------------------------------------------
+class _LeaveBlock(Exception):
+    """The exception that leaves the with-block in the close_by="raise" configuration."""
+
+
 class Exec:
     def __init__(self, cfg=None):
         from geoh5py.groups import DrillholeGroup
@@ -410,6 +420,11 @@ class Exec:
                     self.ws.remove_entity(d)
                 else:
                     self.hole(h).remove_children([d])
+            elif k == "rm_protected":
+                # the depth / from-to data the library itself creates with allow_delete=False:
+                # the workspace must refuse (documented UserWarning) and change nothing
+                _, h, g = op
+                self.ws.remove_entity(self.data(h, m["holes"][h]["groups"][g]["assoc"][0]))
             elif k == "rm_group":
                 _, h, g, via = op
                 p = self.pg(h, g)
@@ -465,12 +480,24 @@ class Exec:
             self.apply(op)
         return self
 
+    def _close(self, ws):
+        """cfg close_by = "close": ws.close();  "raise": the history is the body of a
+        `with workspace:` block that is left through an exception (Workspace.__exit__)."""
+        if self.cfg.get("close_by", "close") == "raise":
+            try:
+                with ws:
+                    raise _LeaveBlock()
+            except _LeaveBlock:
+                pass
+        else:
+            ws.close()
+
     def close_all(self):
-        self.ws.close()
+        self._close(self.ws)
         b1 = self.ws.h5file.getvalue()
         b2 = None
         if self.ws2 is not None:
-            self.ws2.close()
+            self._close(self.ws2)
             b2 = self.ws2.h5file.getvalue()
         return b1, b2
 
@@ -1176,7 +1203,7 @@ def template(history):
     return ex
 
 
-HOLE_OPS = ("add", "update", "resurvey", "rename_hole", "rename_data", "rm_data", "rm_group", "rm_hole")
+HOLE_OPS = ("add", "update", "resurvey", "rename_hole", "rename_data", "rm_data", "rm_group", "rm_hole", "rm_protected")
 
 
 def run_history(ex, history, alpha):
@@ -1431,6 +1458,10 @@ def _result(ex, history, alpha, viol, node, caches, rview, tstats, dead=False):
             continue
         seen.add((c, w))
         vl.append((c, w, d))
+    if last == "rename_data":
+        # everything seen right after a rename is named after it (known finding D1), so that the
+        # same symptom after any other operation stays a signature of its own
+        vl = [(c, w + "@rename_data", d) for c, w, d in vl]
     refused = [f"{op[0]}:{r}" for op, r in zip(ex.all_ops[getattr(ex, 'n_scene', 0):], ex.results[getattr(ex, 'n_scene', 0):]) if r != "ok"]
     return {
         "key": core.digest([_model_shape(m), lay, caches, ex.cfg["version"], refused]),
